@@ -539,6 +539,49 @@ func c15HistExec(c *core.Ctx, in c15Hist) {
 	}
 }
 
+// c15Reuse: two parses into ONE list value. The library's parsers start from an empty list (a second parse replaces the
+// first result), so the second parse must give what a fresh value gives — also when the first parse stopped with an
+// error part-way.
+type c15Reuse struct {
+	Parser string `json:"parser"` // rules | descs
+	First  string `json:"first_hex"`
+	Second string `json:"second_hex"`
+}
+
+func c15ReuseExec(c *core.Ctx, in c15Reuse) {
+	c.Distinct(core.Hash64("reuse", in.Parser, in.First, in.Second), true)
+	fail := func(k, w string) { c.FailCase("reuse|"+in.Parser+"|"+k, w, "reuse", in) }
+	a, b := unhex(in.First), unhex(in.Second)
+	var same bool
+	var e1, e2 error
+	pi := core.Try(func() {
+		if in.Parser == "rules" {
+			var fresh, shared nasType.QoSRules
+			_ = shared.UnmarshalBinary(append([]byte{}, a...))
+			e1 = fresh.UnmarshalBinary(append([]byte{}, b...))
+			e2 = shared.UnmarshalBinary(append([]byte{}, b...))
+			same = reflect.DeepEqual(normRules(fresh), normRules(shared))
+		} else {
+			var fresh, shared nasType.QoSFlowDescs
+			_ = shared.UnmarshalBinary(append([]byte{}, a...))
+			e1 = fresh.UnmarshalBinary(append([]byte{}, b...))
+			e2 = shared.UnmarshalBinary(append([]byte{}, b...))
+			same = reflect.DeepEqual(normDescs(fresh), normDescs(shared))
+		}
+	})
+	if pi != nil {
+		fail(pi.Key(), "panics: "+pi.Msg)
+		return
+	}
+	if (e1 == nil) != (e2 == nil) {
+		fail("verdict-depends-on-earlier-parse", fmt.Sprintf("parsing %x: a fresh value gives %v, a value that parsed %x before gives %v", clip(b), e1, clip(a), e2))
+		return
+	}
+	if e1 == nil && !same {
+		fail("result-depends-on-earlier-parse", fmt.Sprintf("parsing %x into a value that parsed %x before gives a different list than a fresh value", clip(b), clip(a)))
+	}
+}
+
 // c15Histories enumerates: every ill-formed component kind at every position of 1..3 components in filter 0 / 1 of a
 // rule; a nil parameter at every position of 1..3 parameters; every truncation and a 13-value replacement at every
 // position of the three valid wire forms; each alone and (serialiser failures) in ordered pairs; each against three
@@ -617,6 +660,41 @@ func c15Histories(c *core.Ctx, corpus []c15Raw, mine func() bool) (n int64) {
 				run(c15Step{Op: op, Hex: hexs(m)})
 				if v == 0xFF {
 					run(c15Step{Op: op, Hex: hexs(m)}, fails[pos%len(fails)])
+				}
+			}
+		}
+	}
+	// reuse of one list value for two parses: first = every truncation / 13-value replacement of the valid wire form,
+	// second = three valid wire forms
+	for _, seed := range corpus[:2] {
+		data := unhex(seed.Hex)
+		var seconds []string
+		for _, pr := range probes {
+			if seed.Parser == "rules" {
+				seconds = append(seconds, hexs(refRules(pr.ProbeRules)))
+			} else {
+				seconds = append(seconds, hexs(refDescs(pr.ProbeDescs)))
+			}
+		}
+		for pos := 0; pos <= len(data); pos++ {
+			if !mine() {
+				continue
+			}
+			if !c.Begin("reuse", seed.Parser, c15Raw{Parser: seed.Parser, Hex: hexs(data[:pos])}) {
+				continue
+			}
+			firsts := [][]byte{data[:pos]}
+			if pos < len(data) {
+				for _, v := range []byte{0x00, 0x01, 0x02, 0x03, 0x05, 0x06, 0x07, 0x08, 0x20, 0x41, 0x60, 0x81, 0xFF} {
+					m := append([]byte{}, data...)
+					m[pos] = v
+					firsts = append(firsts, m)
+				}
+			}
+			for _, f := range firsts {
+				for _, sec := range seconds {
+					c15ReuseExec(c, c15Reuse{Parser: seed.Parser, First: hexs(f), Second: sec})
+					n++
 				}
 			}
 		}
@@ -908,6 +986,7 @@ func init() {
 	core.RegisterKind("C15", "descs", c15DescsExec)
 	core.RegisterKind("C15", "raw", c15RawExec)
 	core.RegisterKind("C15", "hist", c15HistExec)
+	core.RegisterKind("C15", "reuse", c15ReuseExec)
 	core.RegisterProp(&core.PropSpec{
 		ID: "C15", Level: "exploration", Run: c15Run,
 		Shards: func(string) int { return 16 },
@@ -916,7 +995,7 @@ func init() {
 			if tier == "thorough" {
 				l = "5"
 			}
-			return "totality: every byte string of length <= " + l + " over a 32-value branch-constant alphabet (component types, parameter ids, small lengths, boundary octets) into QoSRules.UnmarshalBinary, QoSFlowDescs.UnmarshalBinary and the component-list parser, plus the <=2-mutation neighbourhood (every truncation, every single-octet replacement by all 256 values, deletions, insertions, pairs) of valid encodings containing every component type and parameter kind; round trip: rule lists over operations 1..6 x DQR x segregation x QFI {0,1,63} x precedence {0,255} x 0..15 filters, filters with 0..2 components over all ordered pairs of the 18 component types with value patterns, rich rules with 1..15 filters of 3/5/9/18 components alone and next to small rules, description lists over operations 1..3 x 0..63 parameters of each kind and all ordered pairs/triples of the 7 kinds. Histories: every ill-formed component kind (IPv6 address, short mask, over-large flow label, nil) at every position of 1..3 components in either filter, an unknown parameter at every position of 1..3 parameters, every truncation and a 13-value replacement at every position of the valid wire forms — alone, in ordered pairs and followed by a successful call — each followed by three probes (serialise and parse well-formed rule and description lists) whose results must not depend on the earlier calls. Serialiser hygiene on every round-trip case: the value is unchanged by MarshalBinary, a second MarshalBinary after the caller overwrote the first result gives the same octets, and the result survives serialising another value. Oracle: no panic; unknown identifiers are errors; serialised bytes equal a reference encoder written from figures 9.11.4.12.x / 9.11.4.13.x; parse(serialise(v)) = v."
+			return "totality: every byte string of length <= " + l + " over a 32-value branch-constant alphabet (component types, parameter ids, small lengths, boundary octets) into QoSRules.UnmarshalBinary, QoSFlowDescs.UnmarshalBinary and the component-list parser, plus the <=2-mutation neighbourhood (every truncation, every single-octet replacement by all 256 values, deletions, insertions, pairs) of valid encodings containing every component type and parameter kind; round trip: rule lists over operations 1..6 x DQR x segregation x QFI {0,1,63} x precedence {0,255} x 0..15 filters, filters with 0..2 components over all ordered pairs of the 18 component types with value patterns, rich rules with 1..15 filters of 3/5/9/18 components alone and next to small rules, description lists over operations 1..3 x 0..63 parameters of each kind and all ordered pairs/triples of the 7 kinds. Histories: every ill-formed component kind (IPv6 address, short mask, over-large flow label, nil) at every position of 1..3 components in either filter, an unknown parameter at every position of 1..3 parameters, every truncation and a 13-value replacement at every position of the valid wire forms — alone, in ordered pairs and followed by a successful call — each followed by three probes (serialise and parse well-formed rule and description lists) whose results must not depend on the earlier calls. Value reuse: every truncation / 13-value replacement of the valid wire forms parsed into a list value, then each of three valid wire forms parsed into the same value — verdict and result must equal those of a fresh value. Serialiser hygiene on every round-trip case: the value is unchanged by MarshalBinary, a second MarshalBinary after the caller overwrote the first result gives the same octets, and the result survives serialising another value. Oracle: no panic; unknown identifiers are errors; serialised bytes equal a reference encoder written from figures 9.11.4.12.x / 9.11.4.13.x; parse(serialise(v)) = v."
 		},
 		Assumptions: []string{
 			"flow labels are generated below 2^19 (the serialiser rejects larger values although the field has 20 bits; the round trip presupposes a successful serialisation)",
